@@ -70,10 +70,10 @@ CHECKS = {
         'assumptions': T_ASSUME,
     },
     'C05': {
-        'units': lambda t: [u_exc(t, 0), u_exc(t, 1), u_exc(t, 2), u_exc(t, 4), u_exc(t, 5), u_conv(t), dict(plain_unit('u_c05_names', 'units/c05_names.cpp', t, opt='-O0'), shards=1)],
+        'units': lambda t: [u_exc(t, 0), u_exc(t, 1), u_exc(t, 2), u_exc(t, 4), u_exc(t, 5), u_exc(t, 6), u_exc(t, 7), u_conv(t), dict(plain_unit('u_c05_names', 'units/c05_names.cpp', t, opt='-O0'), shards=1)],
         'rule': 'tables over must/if_must/if_must_else/opt_must/star_must/list_must/raise/raise_message/try_catch_* (8 variants) nested with the classical '
                 'operators; holes may throw parse_error, a std::exception and a foreign type; actions may throw (deviation bounded); three control '
-                'families plus two must_if controls (message table; explicit raise_on_failure); oracle: exception identity, message, position interval, what(), nesting; default messages for rules whose printed name contains each of the 95 printable characters',
+                'families plus two must_if tables (message table; explicit raise_on_failure), each over the monitor and over the plain normal control (std::terminate = the error did not reach the caller); oracle: exception identity, message, position interval, what(), nesting; default messages for rules whose printed name contains each of the 95 printable characters',
         'assumptions': T_ASSUME,
     },
     'C04': {
